@@ -471,7 +471,16 @@ class StmtMixin:
                     if s2.exc is not None:
                         out.append(s2)
                         continue
-                    if isinstance(b, VDict):
+                    if isinstance(b, VRec):
+                        if not (isinstance(idx, VStr) and idx.lit is not None):
+                            self.unsupported(node, 'record update with a computed key')
+                        if not isinstance(tgt.value, ast.Name):
+                            self.unsupported(node, 'record update through an expression')
+                        nf = dict(b.fields)
+                        nf[idx.lit] = v
+                        s2.setvar(tgt.value.id, VRec(nf))      # records are values: the variable is rebound (paths stay independent)
+                        out.append(s2)
+                    elif isinstance(b, VDict):
                         self.dict_set(s2, b, idx, v)
                         out.append(s2)
                     elif isinstance(b, VList):
